@@ -539,6 +539,8 @@ def r1(ctx: Ctx) -> None:
     fvars = {t.id for n in vg_.nodes if n.kind == "stmt" and isinstance(n.ast, ast.Assign) and isinstance(n.ast.value, ast.Attribute)
              and n.ast.value.attr == "file_format" for t in n.ast.targets if isinstance(t, ast.Name)}
     fattrs = {dotted(x) for x in ast.walk(vf.node) if isinstance(x, ast.Attribute) and x.attr == "file_format" and dotted(x)}
+    fattrs |= {dotted(x) for n in vg_.nodes if n.ast is not None and n.kind in ("stmt", "call", "branch", "return")
+               for x in ast.walk(n.ast) if isinstance(x, ast.Attribute) and x.attr == "file_format" and dotted(x)}  # inlined helpers
     pq_member = next((EnumVal(ci.name, "PARQUET", ci.consts["PARQUET"].value) for ci in ctx.prog.classes.values()
                       if ci.name == "FileFormat" and isinstance(ci.consts.get("PARQUET"), ast.Constant)), None)
     if eq and pq_member is not None and (fvars or fattrs):
